@@ -157,27 +157,27 @@ func VerifyString(
 	case config.SignatureFormatPGPKey:
 		recipients, ok := recipient.(openpgp.EntityList)
 		if !ok {
-			return nil
+			return config.ErrIdentityUnparsable
 		}
 
 		if len(recipients) < 1 {
-			return nil
+			return config.ErrIdentityUnparsable
 		}
 
 		decodedSignature, err := base64.StdEncoding.DecodeString(signature)
 		if err != nil {
-			return nil
+			return err
 		}
 
 		reader := packet.NewReader(bytes.NewBuffer(decodedSignature))
 		pkt, err := reader.Next()
 		if err != nil {
-			return nil
+			return err
 		}
 
 		sig, ok := pkt.(*packet.Signature)
 		if !ok {
-			return nil
+			return config.ErrSignatureInvalid
 		}
 
 		hash := sig.Hash.New()
